@@ -350,3 +350,50 @@ META["C11"] = dict(
     level_note="Trusts the harness's RFC 6265 codec. Directive subsets are exhaustive (128); values and jars sampled.",
     design_ref="DESIGN.md §5 C11",
 )
+
+PLANS["C10"] = dict(
+    level="exploration",
+    rule=("forms of 1-9 parts (text fields and files, several files under one name in submission order, nameless empty placeholder parts, named empty files, contents with CRLF inside, ending in CR / LF / "
+          "CRLF, only CRLF, '--', dash lines, NUL, high bytes, up to 3000 random bytes, Unicode texts and filenames, media types with parameters) encoded by an independent RFC 7578 encoder "
+          "(boundaries of length 1-70 over the RFC 2046 alphabet incl. WebKit style, chosen not to occur in any content; optional extra part headers; lower-case header names; Content-Type before "
+          "Content-Disposition; shuffled field groups) and decoded by serde_multipart::from_bytes into three catalogue types (&str/String/Option<&str> texts, File, Option<File>, Vec<File>, renamed "
+          "fields, unknown fields); field-by-field equality incl. file order; shape mismatches (missing file, empty input into required File, two files into one, text where file expected and vice "
+          "versa, missing text) must be errors. distinct_nontrivial = distinct (target, shape, part count, content-class set, encoder options)."),
+    quick=[R("c10", "rel", 8_000), R("c10", "miri", 16, shards=8, flags={"small": 1})],
+    thorough=[R("c10", "rel", 200_000), R("c10", "dbg", 40_000), R("c10", "asan", 40_000), R("c10", "miri", 400, shards=16, flags={"small": 1})],
+    floors={"quick": {"evaluations": 90_000, "distinct": 5_000, "decoded_equal": 50_000, "shape_mismatch_refused": 20_000}, "thorough": {"evaluations": 2_000_000, "distinct": 20_000}},
+    assumptions=["same-name files are consecutive (as a form submission produces them)", "an absent Vec<File> field is declared with serde(default) by the user type", "an empty text input decodes to None for Option<&str>"],
+)
+META["C10"] = dict(
+    engine="vh c10",
+    technique="runtime monitoring: encode-with-reference / decode-with-real-code equality oracle over generated forms; Miri in both tiers (the parser is from_raw_parts / unwrap_unchecked / unreachable_unchecked code), ASan on the bulk",
+    level_text="Every generated form is encoded by an independent encoder, decoded by the real parser and compared field by field; misfitting shapes must be refused.",
+    level_note="Trusts the harness's RFC 7578 encoder and the expectations about placeholder parts. Sampled forms.",
+    design_ref="DESIGN.md §5 C10",
+)
+
+PLANS["C08"] = dict(
+    level="exploration",
+    rule=("calls (decoder, target type, input) for serde_urlencoded::from_bytes and serde_cookie::from_str against 39 target types each (every deserialize_* entry point as struct field, inside Option / "
+          "newtype / seq / tuple / enum incl. data-carrying variants, maps, struct with unknown fields, borrowed &str / Cow, nested struct, scalars at top level), serde_multipart::from_bytes against "
+          "16 types (File, Vec<File>, Option<File>, tuples of files, texts, maps), percent_decode(_utf8), iter_cookies, FromParam::from_raw_param for all 13 param types, and the Set-Cookie accessors "
+          "on lines built from hostile directive strings; inputs: uniform random bytes, grammar-valid encodings, mutants (delimiter doubling/removal, truncation, '%' + 0-2 arbitrary bytes, high bytes, "
+          "NUL, huge digit strings, commas, boundary look-alikes, LF-only, broken headers). Every input is run against every target type of its decoder. Oracle: no panic, no process death, no call "
+          "beyond 2 s CPU (watchdog: 20 s wall kills the worker and the journal names the call), every yielded str valid UTF-8, every borrowed slice inside the input. distinct_nontrivial = distinct "
+          "(decoder, target type, outcome, input class)."),
+    quick=[R("c08", "rel", 40_000), R("c08", "dbg", 10_000), R("c08", "miri", 48, shards=8, flags={"small": 1})],
+    thorough=[R("c08", "rel", 3_000_000), R("c08", "dbg", 400_000), R("c08", "asan", 600_000), R("c08", "miri", 3_200, shards=16, flags={"small": 1})],
+    floors={"quick": {"evaluations": 1_000_000, "distinct": 350, "urlencoded:ok": 15_000, "cookie:ok": 10_000, "multipart:ok": 5_000, "urlencoded:err": 100_000, "multipart:err": 50_000},
+            "thorough": {"evaluations": 60_000_000, "distinct": 450}},
+    assumptions=["'never loops' is restated as bounded progress: <= 2 s per call on inputs <= 4 KiB, and a 20 s wall-clock kill switch per call", "memory blow-ups are bounded by RLIMIT_AS = 6 GiB per worker (an abort is attributed to the running call)",
+                 "debug-build assertions that guard against target types the format cannot represent (scalar at top level, map as a value) fire on the type, not the bytes: those targets are skipped in debug builds",
+                 "Miri runs a rotating sixth of the target types per input"],
+)
+META["C08"] = dict(
+    engine="vh c08",
+    technique="runtime monitoring with sanitizers: panic/abort/hang observation per call in isolated workers with a case journal, UTF-8 and pointer-range monitors on every yielded value, Miri in both tiers, ASan on the bulk, release and debug builds",
+    level_text=("Totality is observed directly: each call either returns or the monitor records panic / death / hang against the journalled call; yielded strings and borrowed slices are validated by "
+                "an inspection visitor. Miri covers the unsafe paths (take_n_unchecked, from_raw_parts, unwrap_unchecked, unreachable_unchecked) on a smaller workload."),
+    level_note="Sampled inputs; a clean sanitizer run is not memory safety. The watchdog's verdict on hangs is wall-clock based by necessity (the decoder owns the loop), with a 10x margin over the CPU bound.",
+    design_ref="DESIGN.md §5 C08",
+)
